@@ -597,6 +597,79 @@ func (r *run) popular() {
 			}
 		}
 	}
+	// two entries of the data set with the same repository (or the same `name:`) but different
+	// outputs, used by two steps of ONE file: each step's outputs are those of its own spec
+	{
+		type ent struct {
+			spec string
+			outs map[string]bool
+		}
+		byKey := map[string][]ent{}
+		for _, spec := range specs {
+			m := actionlint.PopularActions[spec]
+			if m.SkipOutputs || strings.HasPrefix(spec, "actions/github-script@") {
+				continue
+			}
+			o := map[string]bool{}
+			for id := range m.Outputs {
+				if isIdent(m.Outputs[id].Name) {
+					o[strings.ToLower(m.Outputs[id].Name)] = true
+				}
+			}
+			for _, k := range []string{"repo:" + strings.SplitN(spec, "@", 2)[0], "name:" + m.Name} {
+				byKey[k] = append(byKey[k], ent{spec, o})
+			}
+		}
+		npairs := 0
+		for _, k := range hx.SortedKeys(byKey) {
+			es := byKey[k]
+			for i := 0; i+1 < len(es) && npairs < 40; i++ {
+				a, b := es[i], es[i+1]
+				var diff []string
+				for o := range a.outs {
+					if !b.outs[o] {
+						diff = append(diff, o)
+					}
+				}
+				for o := range b.outs {
+					if !a.outs[o] {
+						diff = append(diff, o)
+					}
+				}
+				if len(diff) == 0 || a.spec == b.spec {
+					continue
+				}
+				sort.Strings(diff)
+				npairs++
+				for _, order := range [][2]ent{{a, b}, {b, a}} {
+					var sb strings.Builder
+					sb.WriteString("on: push\njobs:\n  j:\n    runs-on: ubuntu-latest\n    steps:\n")
+					sb.WriteString("      - uses: " + order[0].spec + "\n        id: s1\n      - uses: " + order[1].spec + "\n        id: s2\n")
+					var want []rep
+					for _, o := range diff {
+						sb.WriteString("      - run: echo ${{ steps.s1.outputs." + o + " }}\n      - run: echo ${{ steps.s2.outputs." + o + " }}\n")
+						if !order[0].outs[o] {
+							want = append(want, rep{clUndefinedOutput, o})
+						}
+						if !order[1].outs[o] {
+							want = append(want, rep{clUndefinedOutput, o})
+						}
+					}
+					src := sb.String()
+					res := lintAlone(root, wpath, []byte(src))
+					// only the output diagnostics are judged here (required inputs are missing on purpose)
+					var got []rep
+					for _, x := range res.reps {
+						if x.Class == clUndefinedOutput {
+							got = append(got, x)
+						}
+					}
+					sortReps(want)
+					r.record("pop", map[string]string{".github/workflows/w.yml": src}, []string{".github/workflows/w.yml"}, "", want, lintResult{reps: got}, "popular/two-specs-one-file", true)
+				}
+			}
+		}
+	}
 	// outdated and unknown specs: nothing about the interface may be reported
 	od := hx.SortedKeys(actionlint.OutdatedPopularActionSpecs)
 	step := len(od)/12 + 1
@@ -813,7 +886,11 @@ func (r *run) localActions(n int) {
 		}
 		outs := pickNames(r.rng, outPool, 3)
 		ay := actionYAML(ins, outs)
-		writeFile(filepath.Join(root, "act", "action.yml"), ay)
+		// where the action lives and how the step spells it: a sub-directory, the repository root
+		// (`uses: ./`), with a trailing slash, nested deeper
+		loc := []struct{ dir, spec string }{{"act", "./act"}, {"", "./"}, {"act", "./act/"}, {"deep/er/act", "./deep/er/act"}}[k%4]
+		ayPath := filepath.ToSlash(filepath.Join(loc.dir, "action.yml"))
+		writeFile(filepath.Join(root, filepath.FromSlash(ayPath)), ay)
 		wpath := filepath.Join(root, ".github", "workflows", "w.yml")
 		writeFile(wpath, "on: push\njobs: {}\n")
 
@@ -830,7 +907,7 @@ func (r *run) localActions(n int) {
 		if len(outs) > 0 {
 			refs = []string{swapCase(outs[0]), undeclaredOut}
 		}
-		r.deriveAction(root, ins, outs)
+		r.deriveAction(root, loc.spec, ins, outs)
 		ss := shapes(all, req)
 		for i := 0; i < 3; i++ {
 			ss = append(ss, callShape{"random", randomCall(r.rng, all)})
@@ -845,10 +922,10 @@ func (r *run) localActions(n int) {
 			if sh.tag == "reserved-key" && lowerSet(all)[strings.ToLower(sh.with[len(sh.with)-1])] {
 				continue
 			}
-			src := stepWorkflow("./act", sh.with, refs)
+			src := stepWorkflow(loc.spec, sh.with, refs)
 			res := lintAlone(root, wpath, []byte(src))
 			want, ru := oracleStep(all, must, outs, false, false, true, sh.with, refs)
-			files := map[string]string{"act/action.yml": ay, ".github/workflows/w.yml": src}
+			files := map[string]string{ayPath: ay, ".github/workflows/w.yml": src}
 			if len(ru) > 0 {
 				w2 := []rep{}
 				for _, x := range want {
@@ -890,13 +967,15 @@ func b2i(b bool) int {
 	return 0
 }
 
-func (r *run) deriveAction(root string, ins []inDecl, outs []string) {
+func (r *run) deriveAction(root, spec string, ins []inDecl, outs []string) {
 	proj, err := actionlint.NewProject(root)
 	hx.Must(err)
-	m, _, err := actionlint.NewLocalActionsCache(proj, nil).FindMetadata("./act")
+	m, _, err := actionlint.NewLocalActionsCache(proj, nil).FindMetadata(spec)
 	hx.Must(err)
 	if m == nil {
-		hx.Must(fmt.Errorf("generated action not found in %s", root))
+		r.fails = append(r.fails, failure{What: "the metadata of a local action is not found for the spec `" + spec + "` although its action.yml exists: its interface is not checked at all",
+			Key: "local-action-not-found:" + spec, Files: map[string]string{}, Lint: []string{spec}})
+		return
 	}
 	var ts []string
 	for _, id := range hx.SortedKeys(m.Inputs) {
